@@ -6,6 +6,7 @@ package props
 
 import (
 	"fmt"
+	"hash/fnv"
 	"os"
 	"path/filepath"
 	"runtime"
@@ -46,50 +47,95 @@ func init() {
 // ---- hook H3: the optimizer's tie-breaks between equal-cost plans are an environment answer -----------
 
 // PlanChoice is one decision point of the optimizer: the tied cost-minimal candidates (canonical order)
-// and the one taken.
+// and the one taken. Decision points are identified by their CONTENT (site + candidates), not by their
+// position in the sequence: the optimizer visits table pairs in map iteration order.
 type PlanChoice struct {
+	Key   string
 	Site  string
 	Tied  []string
 	Taken int
 }
 
+// PlanChoices maps decision-point keys to the index to take (absent = 0, the canonically first).
+type PlanChoices map[string]int
+
 var (
-	planPrefix []int        // choices to replay (then 0 = the canonically first candidate)
-	PlanTrace  []PlanChoice // decision points of the statement being planned
+	planChoices PlanChoices
+	PlanTrace   []PlanChoice // decision points of the statement being planned
 )
 
-func planChooser(site string, tied []string) int {
-	idx := 0
-	if n := len(PlanTrace); n < len(planPrefix) {
-		idx = planPrefix[n]
+func planKey(site string, tied []string) string {
+	h := fnv.New32a()
+	h.Write([]byte(site))
+	for _, t := range tied {
+		h.Write([]byte{0})
+		h.Write([]byte(t))
 	}
+	return fmt.Sprintf("%s~%08x", strings.SplitN(site, ":", 2)[0], h.Sum32())
+}
+
+func planChooser(site string, tied []string) int {
+	key := planKey(site, tied)
+	idx := planChoices[key]
 	if idx >= len(tied) {
 		idx = 0
 	}
-	PlanTrace = append(PlanTrace, PlanChoice{Site: site, Tied: tied, Taken: idx})
+	PlanTrace = append(PlanTrace, PlanChoice{Key: key, Site: site, Tied: tied, Taken: idx})
 	return idx
 }
 
 // SetPlanChoices fixes the optimizer's tie-breaks for the next statement(s).
-func SetPlanChoices(prefix []int) {
-	planPrefix = prefix
+func SetPlanChoices(c PlanChoices) {
+	planChoices = c
 	PlanTrace = nil
 }
 
-// PlanAlternatives returns the choice prefixes that deviate from the recorded trace at one point (the
-// DFS successor rule over plan choices).
-func PlanAlternatives(trace []PlanChoice, from int) [][]int {
-	var out [][]int
-	for i := from; i < len(trace); i++ {
-		for alt := 0; alt < len(trace[i].Tied); alt++ {
-			if alt == trace[i].Taken {
-				continue
+// String renders choices canonically ("" = all defaults); ParsePlanChoices reads it back.
+func (c PlanChoices) String() string {
+	var ks []string
+	for k, v := range c {
+		if v != 0 {
+			ks = append(ks, fmt.Sprintf("%s=%d", k, v))
+		}
+	}
+	sort.Strings(ks)
+	return strings.Join(ks, ",")
+}
+
+func ParsePlanChoices(s string) PlanChoices {
+	c := PlanChoices{}
+	for _, kv := range strings.Split(s, ",") {
+		if i := strings.LastIndexByte(kv, '='); i > 0 {
+			var n int
+			fmt.Sscan(kv[i+1:], &n)
+			c[kv[:i]] = n
+		}
+	}
+	return c
+}
+
+// PlanAlternatives returns the choice maps that deviate from base at one decision point of the trace
+// that base does not fix yet.
+func PlanAlternatives(base PlanChoices, trace []PlanChoice) []PlanChoices {
+	var out []PlanChoices
+	seen := map[string]bool{}
+	for _, p := range trace {
+		if seen[p.Key] || len(p.Tied) < 2 {
+			continue
+		}
+		seen[p.Key] = true
+		if _, fixed := base[p.Key]; fixed {
+			continue
+		}
+		for alt := 0; alt < len(p.Tied); alt++ {
+			nc := PlanChoices{}
+			for k, v := range base {
+				nc[k] = v
 			}
-			pf := make([]int, 0, i+1)
-			for j := 0; j < i; j++ {
-				pf = append(pf, trace[j].Taken)
+			nc[p.Key] = alt // alt == Taken too: the point is now fixed for the subtree
+			if alt != p.Taken {
+				out = append(out, nc)
 			}
-			out = append(out, append(pf, alt))
 		}
 	}
 	return out
@@ -302,19 +348,32 @@ func (t *Txn) runPlan(plan plans.Plan) (Rows, bool, bool) {
 	return convRows(samehada_util.ConvTupleListToValues(out, result)), false, true
 }
 
+// PlanRunBudget bounds the planning runs of one PlanVariants call.
+var PlanRunBudget = 48
+
 // PlanVariants plans sql under every combination of the optimizer's tie-breaks (hook H3) and returns one
 // choice prefix per DISTINCT plan, with the canonical plan strings. Planning has no side effects; the
 // throw-away transaction is committed empty.
-func (d *DB) PlanVariants(sql string) (prefixes [][]int, planStrs []string, fail *Failure) {
+func (d *DB) PlanVariants(sql string) (choices []PlanChoices, planStrs []string, fail *Failure) {
 	seen := map[string]bool{}
-	work := [][]int{nil}
-	for len(work) > 0 && len(prefixes) < 64 {
-		pf := work[len(work)-1]
-		work = work[:len(work)-1]
+	tried := map[string]bool{}
+	work := []PlanChoices{{}}
+	runs := 0
+	// breadth first: the canonical plan, then every single tie-break deviation from it, then pairs, ...
+	// up to PlanRunBudget planning runs (the number of choice vectors is a product over decision points,
+	// most of which do not change the final plan)
+	for len(work) > 0 && runs < PlanRunBudget {
+		pc := work[0]
+		work = work[1:]
+		if tried[pc.String()] {
+			continue
+		}
+		tried[pc.String()] = true
+		runs++
 		var ps string
 		t := d.Begin()
 		f := guard(func() {
-			SetPlanChoices(pf)
+			SetPlanChoices(pc)
 			qi, err := parser.ProcessSQLStr(&sql)
 			if err != nil {
 				return
@@ -332,21 +391,22 @@ func (d *DB) PlanVariants(sql string) (prefixes [][]int, planStrs []string, fail
 		SetPlanChoices(nil)
 		t.Commit()
 		if f != nil {
-			return prefixes, planStrs, f
+			return choices, planStrs, f
 		}
 		if ps == "" {
 			continue
 		}
 		if !seen[ps] {
 			seen[ps] = true
-			full := make([]int, len(trace))
-			for i, c := range trace {
-				full[i] = c.Taken
+			// pin every decision point of this planning run, so that the execution takes the same plan
+			full := PlanChoices{}
+			for _, c := range trace {
+				full[c.Key] = c.Taken
 			}
-			prefixes = append(prefixes, full)
+			choices = append(choices, full)
 			planStrs = append(planStrs, ps)
 		}
-		work = append(work, PlanAlternatives(trace, len(pf))...)
+		work = append(work, PlanAlternatives(pc, trace)...)
 	}
 	return
 }
